@@ -92,28 +92,30 @@ PROPS = {
         "assumptions": ["journals with two prices for one commodity pair on one day are not generated (excluded by the property)"],
     },
     "C03": {
-        "lean": ["Knut.Properties.C03", "Knut.Properties.C03Bound", "Knut.Properties.C03Bridge", "Knut.Properties.C03Window", "Knut.Properties.C03Report", "Knut.Properties.C03Command", "Knut.FactsAgree.TransPrice"],
+        "lean": ["Knut.Properties.C03", "Knut.Properties.C03Bound", "Knut.Properties.C03Bridge", "Knut.Properties.C03Window", "Knut.Properties.C03Report", "Knut.Properties.C03Command"],
         "level": "proof",
-        "claim": "PARTIAL proof + full correspondence + exact monitor. Proved for all journals/days on the model of ComputePrices/Valuate: C03_flow_valued_at_booking_day (every booking is "
-                 "valued as quantity if in V, else Truncate8(quantity x price of its own day)), C03_missing_price_is_error / C03_missing_price_fails_day (a needed absent price fails the day: no number), "
-                 "C03_adjustment_shape (daily adjustment = Truncate8((p_d - p_{d-1}) x Q_{d-1})), C03_gain_account (booked between the account and Income:<its path> only), "
-                 "C03_revaluation_error_if_price_vanished, C03_telescope (the exact identity Q_{d-1}p_{d-1} + (p_d - p_{d-1})Q_{d-1} + sum q_i p_d = Q_d p_d) and C03_trunc_error (each Truncate8 loses "
-                 "less than one unit of the 8th decimal); Properties/C03Bound.lean: C03_trunc_close(_abs) (|Truncate_n r - r| < 10^-n), C03_mtm_bound and C03_mtm_bound_window (for every consistent single-position "
-                 "valuation trace mirroring Valuate: |W - Q x p| <= steps x 1e-8, also relative to a window start), C03_adjustment_term / C03_adjustment_posting / C03_booked_term (the model's adjustment and booking "
-                 "values ARE the trace's terms); Properties/C03Bridge.lean: C03_valuateDay_position, C03_valuationRun_is_trace_run, C03_run_is_trace_run and C03_run_mtm_bound (Balance.run itself, projected on "
-                 "one A/L position with commodity other than V, is the trace run: |sum of the report inserts on (a,c) - Q x latest price| <= steps x 1e-8, for plain configurations with all days inside the window), "
-                 "C03_pipeline_mtm_bound_window (from any start state: the windowed form). Open: days outside the window in the Balance.run form, rendering of inserts into cells (C01/C02 machinery), closed form of "
-                 "the step count. On every run Spec.mtm (exact, in Lean: sum over commodities of summed quantity x Prices.normalize price, no truncation) is compared with every A/L cell of the REAL "
-                 "`knut balance -v V --digits 10` report; valued reports are also compared cell for cell with the pipeline model. Known finding: with --from after a position was "
-                 "acquired the report shows the value change inside the window, not the absolute mark-to-market (design behaviour).",
-        "note": "Trusted: Lean kernel; axioms propext, Classical.choice, Quot.sound; price normalisation is C12's model (Knut.Model.Prices); text-table parsing of the harness (indentation -> account path).",
+        "claim": "Proof + full correspondence + exact monitors. Spec.mtm (Spec/MTM.lean) = sum over commodities of summed quantity x Prices.normalize price of the declarations up to D, exact. "
+                 "Proved from the directives to the CELLS of the rendered table (C03_command_cell, Properties/C03Report.lean): for every cumulative valued report with per-account rows (no -m/--remap/filters/-s/--diff), "
+                 "all intervals, every window (--from/--to/--last), closing on or off, and every directive list whose postings arrive unvalued, the table contains the row of every A/L account with an insert, and its "
+                 "cell in the column of period end D is within Spec.stepBound x 1e-8 of Spec.mtm(D) - Spec.mtm(window start - 1); both values exist whenever the command succeeds; with nothing held on the eve of "
+                 "the window this is the property's sentence (C03_command_cell_abs). Spec.stepBound is an explicit function of the journal (C03_step_bound_closed_form: non-zero bookings on the position + days with a price "
+                 "declaration inside the window, per commodity other than V; C03_window_steps_le, C03_run_window_explicit). Below it: C03_run_window / C03_run_window_split (Balance.run for every window: inserts on (a,c) = "
+                 "Q_D p_D - Q_F p_F up to steps x 1e-8), C03_account_window, C03_run_mtm_bound, C03_mtm_bound(_window), C03_trunc_close, C03_telescope and the per-step facts of Properties/C03.lean. "
+                 "Properties/C03Command.lean: C03_command_missing_price (a booking in a commodity other than V without a price on or before its day: BalanceCmd.run ends in error - or in the partition panic that precedes "
+                 "processing - never in ok stdout; all flags), C03_gain_mirrors_adjustments (the zero-quantity postings on Income:<path of a> against a total -(value on (a,c) - sum of booked values), exactly, one report insert "
+                 "per posting: C03_inserts_are_postings), C03_command_flow_cell_noclose_partial (--close=false: the row of an account that is neither A/L nor below Income shows exactly -Spec.flowAt: every booking valued at "
+                 "the price of its own day). Open: --diff and mapped rows; the flow clause at cell level with --close and for accounts below Income. On every run the driver evaluates Spec.mtm, Spec.stepBound, Spec.flowAt "
+                 "exactly and the harness compares them with the cells of the REAL `knut balance -v V --digits 10` report (A/L cells with the proved bound, no slack; expense/equity and Income:<path> cells exactly for "
+                 "--close=false); valued reports are also compared byte for byte with the pipeline model. Known finding: with --from after a position was acquired the report shows the value change inside the window, "
+                 "not the absolute mark-to-market (design behaviour) - which is what C03_command_cell states.",
+        "note": "Trusted: Lean kernel; axioms propext, Classical.choice, Quot.sound; price normalisation is C12's model (Knut.Model.Prices); text-table parsing of the harness (indentation -> account path); the rendering of a numeric cell to text is C17's theorem.",
         "rule": "journals with price histories (sparse/daily redeclarations, direct, inverse and chained declarations, an eighth with some declarations dropped so that valuation must fail), "
                 "position histories with sign changes and liabilities, many-decimal quantities; flags: -v V, all intervals, --from/--to/--last, --close on/off, --digits 10. "
                 "class = (outcome, flag signature, size bucket).",
         "assumptions": ["no mapping/filters/--diff in this check's flag vectors (cells are then per-account cumulative values)"],
     },
     "C09": {
-        "lean": ["Knut.Properties.C09", "Knut.Properties.C09Decimal", "Knut.Properties.C09Text", "Knut.Properties.C09Journal"],
+        "lean": ["Knut.Properties.C09", "Knut.Properties.C09Decimal", "Knut.Properties.C09Text", "Knut.Properties.C09Journal", "Knut.FactsAgree.TransTransaction"],
         "level": "proof",
         "claim": "Proof (all three clauses, for every printable journal, on the model of the commands for a journal that is one file) + full correspondence. Properties/C09Journal.lean: C09_print_accepted (the printed text loads and the checker gives the reloaded journal the verdict of the original), C09_print_fixpoint / C09_print_rejected (knut print on the printed text of an accepted printable journal writes that text; a rejected one stays rejected), C09_print_idempotent(_bytes) (print is idempotent on its own output), C09_reports_equal (knut balance under ANY flag vector, valued or not, no restriction on price directives, gives the same bytes or fails alike on the directives loaded from the printed text and on the directives the journal was built from), C09_verdict_equal. Printable (PrintableDir / PrintableJournal, decidable) = what the journal syntax can carry: dates 0000..9999, names of Unicode letters/digits, decimal amounts, assertions with at least one balance, descriptions without a double quote, transactions as transaction.Create builds them. UNCONDITIONAL for texts: C09_loaded_printable (every directive the loader returns from ANY byte string is PrintableDir: the parser's soundness gives field tokens of the right lexical classes, time.Parse / NewFromString / the registry / transaction.Create incl. @accrue expansion give the rest; Proofs/PrintSound.lean), hence C09_print_idempotent: for EVERY input text, if knut print succeeds on it then knut print on its output writes the same bytes; C09_file_reports_equal: check verdict and every balance report (any flags) of the printed file equal those of the input file. Open: include trees are outside printFile (one file; C05 covers layout independence); the second elaboration model of Model/Commands.lean (Cmd.runPrint, used by C14) is not linked to FromSyntax.loadText by a theorem. Proved (all bookings, all amounts): C09_booking_normal_form (rebuilding the booking that print writes from the debit-side posting yields "
                  "the identical posting pair), C09_printed_quantity_nonneg, C09_reprint_same_line, C09_targets_line. Properties/C09Decimal.lean: C09_dec_scaled_roundtrip, C09_dec_string_roundtrip (parseDec (showDec r) = r for every decimal rational), C09_dec_string_shortest, "
@@ -148,7 +150,7 @@ PROPS = {
         "assumptions": ["unvalued reports only (valued ones: C01/C03)"],
     },
     "C01": {
-        "lean": ["Knut.Properties.C01", "Knut.Properties.C01Table"],
+        "lean": ["Knut.Properties.C01", "Knut.Properties.C01Table", "Knut.FactsAgree.TransAccount", "Knut.FactsAgree.TransPosting", "Knut.FactsAgree.TransTransaction"],
         "level": "proof",
         "claim": "Lean theorems over the model of the whole balance pipeline (check, ComputePrices, Valuate with daily value adjustments, Filter, CloseAccounts, Query, report totals): "
                  "C01_entries_cancel (for every journal made of posting pairs, every window/interval/--last/--diff/--close/--remap/-m level>=1, valued or not, without filters, the report inserts "
@@ -228,7 +230,7 @@ PROPS = {
                         "the parser model equals the Go parser (C07's correspondence, re-exercised here through c08format)"],
     },
     "C10": {
-        "lean": ["Knut.Properties.C10", "Knut.FactsAgree.TransDate"],
+        "lean": ["Knut.Properties.C10", "Knut.FactsAgree.TransDate", "Knut.FactsAgree.TransAccount", "Knut.FactsAgree.TransPosting", "Knut.FactsAgree.TransTransaction"],
         "level": "proof",
         "claim": "Lean theorems over the model of transaction.Create/expand (lib/model/transaction/transaction.go) with posting.Builder.Build, date.NewPartition (the C11 model, last = 0) "
                  "and Decimal.QuoRem(n, 1), for any number of bookings, all five account types, any quantities, every interval and every window with start <= end: every generated "
